@@ -223,8 +223,12 @@ fn check_backpressure(sc: &ConnScenario, out: &ConnOutcome, rep: &mut RunReport)
 fn is_timeout_disconnect(sc: &ConnScenario, reason: &Value) -> bool {
     match sc.services.localization.messages.get("en").and_then(|t| t.get("disconnect_timeout")) {
         Some(m) => super::c03::text_matches(reason, m),
-        // (a table without this key: the localization adapter falls back to the key itself as the text)
-        None => super::c03::text_matches(reason, "disconnect_timeout"),
+        // (a table without this key: whatever text the adapter falls back to - the key itself on the unchanged tree -
+        // the timeout Disconnect is the one that does not carry the configured no-target message)
+        None => match sc.services.localization.messages.get("en").and_then(|t| t.get("disconnect_no_target")) {
+            Some(nt) => !super::c03::text_matches(reason, nt),
+            None => super::c03::text_matches(reason, "disconnect_timeout"),
+        },
     }
 }
 
